@@ -167,8 +167,7 @@ fn mk_redirected_flow(n: u64) -> Flow<(), SendBody> {
     nf.send_body_despite_method();
     nf.header("content-length", n.to_string().as_str()).expect("header");
     let mut sr = nf.proceed();
-    let mut buf = vec![0u8; 1024];
-    sr.write(&mut buf).expect("head");
+    crate::driver::write_whole_head(&mut sr).expect("head");
     match AnyFlow::SendRequest(sr).proceed() {
         Ok(Some(AnyFlow::SendBody(f))) => f,
         _ => panic!("harness: expected SendBody"),
